@@ -181,7 +181,7 @@ func C09(c *core.Ctx) {
 			return
 		}
 	}
-	if b, err := os.ReadFile("/repo/loader/full-example.yml"); err == nil {
+	if b, err := os.ReadFile(core.RepoRoot+"/loader/full-example.yml"); err == nil {
 		addDoc("full-example", string(b))
 	}
 	variants := []struct {
@@ -202,7 +202,7 @@ func C09(c *core.Ctx) {
 			}
 			dir := wd
 			if sd.name == "full-example" {
-				dir = "/repo/loader"
+				dir = core.RepoRoot + "/loader"
 			}
 			vopt := vr.opt
 			if sd.name == "full-example" { // the repository's example combines attributes the consistency rules exclude; its own tests load it without them
